@@ -31,6 +31,8 @@ pub struct GlueAdapter {
 	pub segs: Mutex<Option<SegStore>>,
 	/// the adapter method that fails (once) with a chain error
 	pub fail: Mutex<Option<String>>,
+	/// `get_tmpfile_pathname` hands out a path that already exists (`create_new` must fail)
+	pub tmp_exists: AtomicBool,
 }
 
 #[derive(Clone)]
@@ -168,6 +170,11 @@ impl ChainAdapter for GlueAdapter {
 	}
 	fn get_tmpfile_pathname(&self, n: String) -> std::path::PathBuf {
 		self.push("tmpfile".into());
+		if self.tmp_exists.load(Ordering::SeqCst) {
+			let p = self.work.join("already-there.zip");
+			let _ = std::fs::write(&p, b"x");
+			return p;
+		}
 		self.work.join(n)
 	}
 	fn get_kernel_segment(&self, _h: Hash, _i: SegmentIdentifier) -> Result<Segment<TxKernel>, grin_chain::Error> {
@@ -408,6 +415,7 @@ fn conversation(cx: &mut Lx, work: &std::path::Path, _id: usize, accept: bool, r
 		arch_data: Mutex::new(None),
 		segs: Mutex::new(None),
 		fail: Mutex::new(None),
+		tmp_exists: AtomicBool::new(false),
 	});
 	let ad2: Arc<GlueAdapter> = ad.clone();
 	let listener = TcpListener::bind("127.0.0.1:0").unwrap();
